@@ -26,12 +26,30 @@ def main(argv):
         traceback.print_exc()
         print(f'no check for {pid}')
         return 2
+    import time
+    import framework
     from framework import Check
-    chk = Check(pid, tier, seed, keep_replays=bool(replay))
     try:
         if replay:
-            return mod.replay(chk, replay)
-        return mod.run(chk)
+            return mod.replay(Check(pid, tier, seed, keep_replays=True), replay)
+        # Change-directed search: when the library source differs from the tree these checks were last validated on
+        # (gen/blessed_source.json), the quick tier does not stop at one seed — it repeats the whole check with further
+        # seeds until a violation is found or the time budget is used.  On the blessed tree this costs nothing.
+        changed = framework.changed_source_files() if tier == 'quick' else None
+        budget = float(os.environ.get('VERIF_ESCALATE_S', '150'))
+        t0 = time.time()
+        seeds = [seed]
+        if changed:
+            framework.ESCALATION = {'changed_files': changed, 'seeds_run': seeds, 'budget_s': budget}
+        rc = mod.run(Check(pid, tier, seed))
+        first = time.time() - t0
+        k = 0
+        while changed and rc == 0 and k < 8 and (time.time() - t0) + first * 1.1 < budget:
+            k += 1
+            s2 = (seed * 1000003 + k * 7919) % (2 ** 31)
+            seeds.append(s2)
+            rc = mod.run(Check(pid, tier, s2, keep_replays=True))
+        return rc
     except Exception:
         traceback.print_exc()
         return 2
